@@ -236,6 +236,28 @@ def run_case(spec, lines, out):
                     except Exception:
                         same = False
                     emit("note other_labels_unaffected_by_nan_label", "ok" if same else "CHANGED")
+                if m >= 2 and k == 0 and not op.get("int") and type(model).__name__ == "FixedLifetime":
+                    # label independence, probed with a lifetime that vanishes for one label (nothing of a cohort
+                    # survives its first interval there): the other labels' results must be what they were
+                    import warnings
+                    mean2 = np.array(np.broadcast_to(np.asarray(model.mean, dtype=float), shape), dtype=float).reshape(shape[0], -1)
+                    mean2[:, 0] = 0.25
+                    try:
+                        lm2 = type(model)(dims=dims, time_letter="t", inflow_at=model.inflow_at,
+                                          n_pts_per_interval=model.n_pts_per_interval, mean=mean2.reshape(shape))
+                        s3 = StockDrivenDSM(dims=dims, lifetime_model=lm2, time_letter="t", solver=op["solver"],
+                                            stock=StockArray(dims=dims, values=np.asarray(st, dtype=float).copy()))
+                        with warnings.catch_warnings():
+                            warnings.simplefilter("ignore")
+                            s3.compute()
+                        a = np.asarray(s.inflow.values, dtype=float).reshape(shape[0], -1)[:, 1:]
+                        b = np.asarray(s3.inflow.values, dtype=float).reshape(shape[0], -1)[:, 1:]
+                        same = np.allclose(a, b, rtol=1e-9, atol=1e-12, equal_nan=False)
+                        emit("note other_labels_unaffected_by_vanishing_label", "ok" if same else "CHANGED")
+                    except Exception as e_:  # noqa: BLE001
+                        # the lapack solver refuses the singular system as a whole; the manual one has no reason to raise
+                        if op["solver"] == "manual":
+                            emit("note other_labels_unaffected_by_vanishing_label", f"raised {type(e_).__name__}")
             elif kind == "fds":
                 line = "fds " + " ".join(op["inflow"]) + " ; " + " ".join(op["outflow"])
                 s = SimpleFlowDrivenStock(dims=dims, time_letter="t",
